@@ -442,6 +442,39 @@ fn deep_cases() -> Vec<(String, String, Fmt)> {
             }
         }
     }
+    // far beyond serde_json's default recursion limit, built as text (a few KB each): a disclosure nested
+    // `depth` levels, referenced from the signed payload and unreferenced; a payload, a protected header and a
+    // JSON-envelope member nested that deep
+    for depth in [129usize, 200, 500, 1000, 2000, 3000] {
+        for (mode, open, close) in [("arrays", "[".to_string(), "]".to_string()), ("objects", "{\"a\":".to_string(), "}".to_string()), ("mixed", "[{\"a\":".to_string(), "}]".to_string())] {
+            let d = if mode == "mixed" { depth / 2 } else { depth };
+            let nested = format!("{}1{}", open.repeat(d), close.repeat(d));
+            let disc = tokens::disclosure_text(&format!("[\"c2FsdC1kZWVwLWRlZXAtZGVlcA\", \"n\", {nested}]"));
+            let elem = tokens::disclosure_text(&format!("[\"c2FsdC1kZWVwLWRlZXAtZGVlcA\", {nested}]"));
+            let referenced = json!({"iss": gen::ISS, "exp": gen::EXP, "_sd_alg": "sha-256", "_sd": [codec::digest(&disc)], "arr": [{"...": codec::digest(&elem)}]});
+            let plain = json!({"iss": gen::ISS, "exp": gen::EXP, "_sd_alg": "sha-256", "a": 1});
+            for (what, payload) in [("referenced", &referenced), ("unreferenced", &plain)] {
+                let jwt = tokens::sign_payload(payload, Alg::HS256, 0);
+                for fmt in codec::FMTS {
+                    out.push((format!("deep_text_disclosure:{what}:{depth}:{mode}"), Parts { jwt: jwt.clone(), disclosures: vec![disc.clone(), elem.clone()], kb: None }.serialize(fmt), fmt));
+                }
+            }
+            // payload and header as text, HMAC-signed with the issuer's secret
+            let payload_text = format!("{{\"iss\":\"{}\",\"exp\":{},\"d\":{nested}}}", gen::ISS, gen::EXP);
+            let header_text = format!("{{\"alg\":\"HS256\",\"x\":{nested}}}");
+            let plain_b64 = codec::b64_json(&plain);
+            for (what, h, p) in [("payload", b64e(b"{\"alg\":\"HS256\"}"), b64e(payload_text.as_bytes())), ("header", b64e(header_text.as_bytes()), plain_b64.clone())] {
+                let jwt = tokens::hmac_sign(&h, &p, crate::keys::HS_SECRET);
+                for fmt in codec::FMTS {
+                    out.push((format!("deep_text_{what}:{depth}:{mode}"), Parts { jwt: jwt.clone(), disclosures: vec![], kb: None }.serialize(fmt), fmt));
+                }
+            }
+            let jwt = tokens::sign_payload(&plain, Alg::HS256, 0);
+            let env = Parts { jwt, disclosures: vec![], kb: None }.to_json();
+            out.push((format!("deep_text_envelope_member:{depth}:{mode}"), format!("{{\"zz\":{nested},{}", &env[1..]), Fmt::Json));
+            out.push((format!("deep_text_envelope_disclosures:{depth}:{mode}"), env.replace("\"disclosures\":[]", &format!("\"disclosures\":{nested}")), Fmt::Json));
+        }
+    }
     out
 }
 
